@@ -135,6 +135,7 @@ structure Cfg where
   keepValueOnError : Bool := true   -- D20: a resolver returning value and error keeps the value in data
   argCountCheckOnly : Bool := true  -- D23: unknown arguments are reported only when the counts differ, and only on object containers
   opFallbackAnyName : Bool := true  -- D11: a name that matches no operation falls back to the document's only operation
+  metaArgsUnchecked : Bool := true  -- D100: `__typename` is answered whatever arguments it is given
   anonAmongOthers : Bool := true    -- D96: an operation without a name is accepted next to other operations
   dupKeyOverwrites : Bool := true   -- D12: a response key selected again replaces the earlier value instead of being merged with it
   maxDepth : Nat := 100
@@ -302,7 +303,10 @@ def rSel (env : Env) (node : Nat) (ty : String) (d : Nat) (res : List (String ×
     let skipErrs : List Err := (List.replicate sk.2 (⟨[.key key], .directive⟩ : Err))
     if sk.1 then (res, { errs := skipErrs }) else
     if name == "__typename" then
-      (setKey res key (.str (typeNameOf env node ty)), { errs := skipErrs }) else
+      -- `__typename` declares no argument: repaired, the first one given is reported and nothing is written
+      if !env.cfg.metaArgsUnchecked && !args.isEmpty then
+        (res, { errs := skipErrs ++ [⟨[.key key], .unknownArg ((args.head?.map (·.name)).getD "")⟩] })
+      else (setKey res key (.str (typeNameOf env node ty)), { errs := skipErrs }) else
     match getFieldDef env.schema ty name with
     | none => (res, { errs := skipErrs ++ [⟨[.key key], .notAField name⟩] })
     | some fd =>
